@@ -199,10 +199,15 @@ CHECKS['C09'] = dict(
           "decompositions, roots, quotients; exp values tabulated from libm) and checks: Moore-Penrose conditions for "
           "Covariance (incl. exactly singular covariance), L C_w L^T = I and L C_w v_j = 0 on discarded directions for "
           "RCA, and for LFDA that every row of L is the r-th leading generalised eigenvector with the scaling of its "
-          "embedding_type (plain: unit S_w-norm, weighted: times sqrt(lambda), orthonormalized: orthonormal flag basis)."),
+          "embedding_type (plain: unit S_w-norm, weighted: times sqrt(lambda), orthonormalized: orthonormal flag basis). "
+          "Data come at raw magnitudes 2^-20..2^24, with common offsets 4096 times the spread, with duplicated samples, singleton "
+          "chunks and classes smaller than k + 1. Additionally every Covariance.fit / RCA.fit executed by the repository's OWN "
+          "test suite (recorded by the pytest tracing plugin harness/verif_trace_plugin.py, nothing in /repo modified) is validated "
+          "by the same trace specification."),
     note=("libm exp is trusted (only range / zero rule checked); cases without an eigen-gap or with a rejected witness are "
-          "inconclusive (clause prefix X09) and counted, never violations; LFDA cases use d <= 3 and classes of >= 4 members "
-          "(so that the code's running minimum over class sizes of k does not come into play)."),
+          "inconclusive (clause prefix X09) and counted, never violations; LFDA cases use d <= 3; classes smaller than k + 1 are "
+          "generated since the D22 repair (per-class cap of k). The open finding D6 (LFDA local scale read from the wrong axis of "
+          "the partially sorted distance matrix) is matched by clause AND signature and printed as KNOWN-FINDING."),
     technique="TLA+ exact statistics + witness-verified optimality certificates evaluated by TLC on recorded fits",
     ref="DESIGN.md section 5 C09")
 
